@@ -224,7 +224,7 @@ def make_sets(scn):
         raw = g.integers(0, 1 << 16, (rows, 16))
         pt = g.integers(0, 256, (rows, 4)).astype('uint8')
         s = raw[:n, :scn['m']] % (scn['amp'] + 1)
-        td = np.dtype(scn['tdtype'])
+        td = np.dtype((scn.get('tdtypes') or [scn['tdtype']] * len(scn['sets']))[j])
         if td.kind != 'u':
             s = s - scn['amp'] // 2
         s = s.astype(td)
@@ -397,6 +397,10 @@ def generate(prop, seed, tier):
         scn['model'] = ['monobit', 0] if scn['kind'] == 'dpa' else 'hw'
         scn.pop('const_word', None)
         scn.pop('wide', None)
+    if len(scn['sets']) > 1 and not scn.get('half') and rng.stream(seed, 'rundtypes').random() < 0.35:
+        # each container may store its samples in another dtype (8-bit acquisition, then 12-bit in int16, then a float export)
+        rd = rng.stream(seed, 'rundtypes2')
+        scn['tdtypes'] = [scn['tdtype']] + [rd.choice(['uint8', 'int16', 'float32']) for _ in scn['sets'][1:]]
     if prop in ('C02', 'C08') and len(scn['sets']) > 1 and rng.stream(seed, 'rule2').random() < 0.3:
         # the process-global batch rule is changed between two run() calls
         scn['rule2'] = rng.stream(seed, 'rule2b').choice([1, 3, 7, 1e-5, [[0, 2], [3, 5]]])
@@ -405,6 +409,11 @@ def generate(prop, seed, tier):
         scn['sets'] = scn['sets'][:1]
         if scn['sets'][0] < 2:
             scn['sets'][0] = fr.randint(2, 40)
+        frun = rng.stream(seed, 'faultrun')
+        if frun.random() < 0.3:
+            # a healthy run() first, the fault hits the second run() of the same analysis object
+            scn['sets'] = [frun.randint(1, 30), scn['sets'][0]]
+            scn['fault_run'] = 1
         scn['fault'] = {'kind': fr.choice(['storage_meta', 'storage_samples', 'preprocess', 'selection_function', 'pp_short', 'sf_extra_word']),
                         'batch': fr.choice([0, 0, 1, 1, 2, 3, 5, -1])}
         if scn['fault']['kind'] == 'preprocess' and not scn['chain']:
@@ -437,6 +446,11 @@ def generate_c08_template(seed, tier):
     r = rng.stream(seed, 'workload')
     scn.update({'prop': 'C08', 'seed': seed, 'template': True, 'auto': False, 'probe_before_build': False, 'build_rule': 1000})
     if scn['style'] == 'auto':
+        scn['style'] = 'range'
+    if len(scn['classes']) > 12:
+        scn['classes'] = scn['classes'][:9] if scn['classes'][0] == 0 else scn['classes'][-9:][::-1]
+        scn['per_class'] = scn['per_class'][:9]
+        scn['key'] = scn['key'] % 9
         scn['style'] = 'range'
     scn['per_class'] = [max(2, p) for p in scn['per_class']]
     nm = r.randint(2, 40)
@@ -514,15 +528,24 @@ def fresh_results(scn, sf, EE, DD):
     return a
 
 
+_STORAGES = []
+
+
 def execute(scn):
     scared = env.boot()
     Hook.reset()
+    del _STORAGES[:]
     try:
         if scn['prop'] == 'C14':
-            return execute_c14(scn)
-        if scn.get('template'):
-            return _execute_c08_template(scn, scared)
-        return _execute(scn, scared)
+            out = execute_c14(scn)
+        elif scn.get('template'):
+            out = _execute_c08_template(scn, scared)
+        else:
+            out = _execute(scn, scared)
+        for st in _STORAGES:
+            if st.harness_error is not None:
+                raise RuntimeError('exception inside the storage seam of the harness: %r' % (st.harness_error,))
+        return out
     finally:
         Hook.reset()
         env.reset_globals()
@@ -531,6 +554,7 @@ def execute(scn):
 def _execute(scn, scared):
     prop = scn['prop']
     storage = Storage()
+    _STORAGES.append(storage)
     rec = Recorder()
     sets = make_sets(scn)
     sf = make_sf(scn['mode'], scn['words'], scn['nguess'], scn.get('wide', False))
@@ -548,7 +572,7 @@ def _execute(scn, scared):
         probes[k] = probes.get(k, 0) + n
 
     fault = scn.get('fault')
-    state = {'meta_fetch': 0, 'arm_samples': False}
+    state = {'meta_fetch': 0, 'arm_samples': False, 'target': -1}      # target = ordinal of the metadata read that opens the faulty batch (-1: none yet)
     if fault:
         fk = 'storage_read_error' if fault['kind'].startswith('storage') else ('refused_in_update' if fault['kind'] in ('pp_short', 'sf_extra_word') else 'callback_error')
         faults[fk + ':' + fault['kind']] = [1, 0]
@@ -590,11 +614,16 @@ def _execute(scn, scared):
             E = expected_matrix(scn, samples)
             D = expected_data(scn, model, pt)
             Hook.sf_calls = 0
-            if fault:
+            if fault and j == scn.get('fault_run', 0):
                 # scout: the same analysis on the same rows over a separate fake storage, no fault: observes the batch partition run() really
                 # uses (with a convergence step it is derived, not the container's) and gives the fault-free convergence trace for calibration
                 scout_rec, st2 = Recorder(), Storage()
                 scout = recording(K, scout_rec, st2)(**analysis_kwargs(scn, sf, scn.get('step')))
+                if allE:
+                    # earlier healthy runs: the scout goes through them as well (same derived batch sizes, same window state)
+                    for jj, (s_prev, p_prev) in enumerate(sets[:j]):
+                        scout.run(scared.Container(make_ths(st2, s_prev, {'plaintext': p_prev}, 'scoutpre%d' % jj), frame=np_frame(scn['frame']), preprocesses=list(pps)))
+                    del scout_rec.updates[:]
 
                 def mk_cont(lo, hi, tag, st=st2):
                     return scared.Container(make_ths(st, samples[lo:hi], {'plaintext': pt[lo:hi]}, tag), frame=np_frame(scn['frame']), preprocesses=list(pps))
@@ -630,7 +659,8 @@ def _execute(scn, scared):
                     run_exc = e
                 except Exception as e:
                     run_exc = e
-                return _after_fault(scn, scared, att, rec, storage, sf, E, D, samples, pt, run_exc, faults, probes, pps, k, bs, K=K, scout=scout, mk_cont=mk_cont)
+                return _after_fault(scn, scared, att, rec, storage, sf, E, D, samples, pt, run_exc, faults, probes, pps, k, bs, K=K, scout=scout, mk_cont=mk_cont,
+                                    preE=(np.concatenate(allE) if allE else None), preD=(np.concatenate(allD) if allD else None))
             try:
                 att.run(container)
             except Exception as e:
@@ -753,7 +783,7 @@ def _manual_prefix(scn, scared, K, sf, cont, bs, upto, final=False):
     return a
 
 
-def _after_fault(scn, scared, att, rec, storage, sf, E, D, samples, pt, run_exc, faults, probes, pps, k, bs, K=None, scout=None, mk_cont=None):
+def _after_fault(scn, scared, att, rec, storage, sf, E, D, samples, pt, run_exc, faults, probes, pps, k, bs, K=None, scout=None, mk_cont=None, preE=None, preD=None):
     prop = 'C16'
     fk = list(faults)[0]
     violation = None
@@ -774,12 +804,16 @@ def _after_fault(scn, scared, att, rec, storage, sf, E, D, samples, pt, run_exc,
     Hook.sf_raise_at = None
     Hook.sf_extra_at = None
     storage.on_fetch = None
+    npre = 0 if preE is None else len(preE)
+
+    def withpre(X, P):
+        return X if P is None else np.concatenate([P, X])
     try:
-        if att.processed_traces != expect_rows:
+        if att.processed_traces != npre + expect_rows:
             violation = viol('count_changed', [prop, 'count_changed', kind, 'run:' + fkind],
-                             'run() failed on batch %d with %r; processed_traces=%s but %s rows were accepted' % (k, run_exc, att.processed_traces, expect_rows))
-        if violation is None and expect_rows >= 1:
-            ref = fresh_results(scn, sf, E[:expect_rows], D[:expect_rows])
+                             'run() failed on batch %d with %r; processed_traces=%s but %s rows were accepted' % (k, run_exc, att.processed_traces, npre + expect_rows))
+        if violation is None and npre + expect_rows >= 1:
+            ref = fresh_results(scn, sf, withpre(E[:expect_rows], preE), withpre(D[:expect_rows], preD))
             try:
                 att.compute_results()
                 if not compare.bitwise(att.results, ref.results):
@@ -795,17 +829,17 @@ def _after_fault(scn, scared, att, rec, storage, sf, E, D, samples, pt, run_exc,
             with env.clock(env.SimClock()), env.memory(env.SimMemory()):
                 try:
                     att.run(scared.Container(rest, frame=np_frame(scn['frame']), preprocesses=list(pps)))
-                    ref = fresh_results(scn, sf, E, D)
-                    if att.processed_traces != len(samples):
+                    ref = fresh_results(scn, sf, withpre(E, preE), withpre(D, preD))
+                    if att.processed_traces != npre + len(samples):
                         violation = viol('count_changed', [prop, 'count_changed', kind, 'run:' + fkind, 'after_rest'],
-                                         'processed_traces=%s after running the remaining rows, expected %s' % (att.processed_traces, len(samples)))
+                                         'processed_traces=%s after running the remaining rows, expected %s' % (att.processed_traces, npre + len(samples)))
                     elif not compare.bitwise(att.results, ref.results):
                         violation = viol('result_differs_from_accepted_only', [prop, 'result_differs_from_accepted_only', kind, 'run:' + fkind, 'after_rest'],
                                          'remaining rows after failed run: maxdiff=%s' % compare.maxdiff(att.results, ref.results))
-                    elif scn.get('step') and scn['mode'] == 'attack' and K is not None:
+                    elif scn.get('step') and scn['mode'] == 'attack' and K is not None and preE is None:
                         violation = _convergence_after_fault(scn, scared, att, K, sf, scout, mk_cont, samples, k, bs, expect_rows, probes, kind, fkind)
                 except Exception as e:
-                    first = expect_rows == 0
+                    first = npre + expect_rows == 0
                     violation = viol('valid_call_rejected_after_refusal', [prop, 'valid_call_rejected_after_refusal', kind, 'run:' + fkind, 'first' if first else 'later'],
                                      'run over the remaining rows raised %r' % (e,))
     finally:
@@ -977,14 +1011,14 @@ def _check_convergence(scn, scared, att, rec, sf, EE, DD, cols_after_run, probes
 
 # ----------------------------------------------------------------------------- C14
 
-C14_LISTS = ['range', 'shift', 'perm', 'gap', 'auto', 'permmid']
+C14_LISTS = ['range', 'shift', 'perm', 'gap', 'auto', 'permmid', 'bigrange']
 
 
 def generate_c14(seed, tier):
     r = rng.stream(seed, 'workload')
     thorough = tier == 'thorough'
     k = r.randint(2, 6)
-    style = _w(r, [('range', 3), ('shift', 2), ('perm', 2), ('gap', 2), ('auto', 1.5), ('permmid', 1.2)])
+    style = _w(r, [('range', 3), ('shift', 2), ('perm', 2), ('gap', 2), ('auto', 1.5), ('permmid', 1.2), ('bigrange', 0.6)])
     if style == 'range':
         classes = list(range(k))
     elif style == 'shift':
@@ -1003,8 +1037,12 @@ def generate_c14(seed, tier):
         classes = sorted(r.sample(range(0, 3 * k), k))
         if r.random() < 0.5:
             r.shuffle(classes)
+    elif style == 'bigrange':
+        # many classes, declared explicitly (a byte-valued profile has 256): limits on the number of templates / operands only show here
+        k = r.choice([64, 70, 100, 256])
+        classes = list(range(k)) if r.random() < 0.7 else list(range(k))[::-1]
     else:
-        k = 9 if not (thorough and r.random() < 0.2) else 64
+        k = r.choice([9, 9, 9, 64, 256]) if not thorough else r.choice([9, 9, 64, 64, 256])
         classes = list(range(k))
     per = [r.randint(2, 7 if k <= 9 else 3) for _ in range(k)]
     L = r.randint(1, 6)
